@@ -263,6 +263,16 @@ def run(tier, seed, rng):
             for env in envs:
                 extra.append(dict(src_d=txt, src_l=txt.replace('f2', 'pkt.f2').replace('f3', 'pkt.f3').replace('.__len__()', '.__len__()'),
                                   env=env, more_envs=[x for x in envs if x is not env], symbolic=False))
+    # oracle-only: several expressions over the same field objects, as in one class body, differing only in a constant
+    # (also constants that are equal or hash alike in python: -1 / -2, 1 / True / 1.0, 0 / False)
+    lam = lambda t: t.replace('f0', 'pkt.f0').replace('f1', 'pkt.f1').replace('f2', 'pkt.f2').replace('f3', 'pkt.f3')
+    fams = [['f3[-1]', 'f3[-2]', 'f3[0]', 'f3[1]'], ['(f0 & -1)', '(f0 & -2)', '(f0 & 1)', '(f0 & 2)'], ['f2[:-1]', 'f2[:-2]', 'f2[:1]', 'f2[:2]'],
+            ['(f0 * 2)', '(f0 * 2.0)', '(f0 * True)', '(f0 * 1)'], ['(f0 + 1)', '(f0 + True)', '(f0 + 1.0)', '(f0 + 0)', '(f0 + False)'],
+            ['(f1 - 1)', '(f1 - 2)', '(f1 - -1)', '(f1 - -2)'], ['(f0 == 1)', '(f0 == True)', '(f0 == 0)', '(f0 == False)']]
+    for fam in fams:
+        for first in fam:
+            rest = [t for t in fam if t != first]
+            extra.append(dict(src_d=first, src_l=lam(first), env=envs[2], symbolic=False, also=[[t, lam(t)] for t in rest]))
     parts = shard(cases + extra, (len(cases) + len(extra)) // NPROC + 1)
     outs = run_impl_parallel(os.path.join(VERIF, 'harness', 'impl_expr.py'), [dict(cases=p) for p in parts])
     outcomes = [o for p in outs for o in p]
@@ -277,6 +287,10 @@ def run(tier, seed, rng):
         if d != g:
             failures.append(dict(kind='oracle', sig='expr-meaning', what='the deferred expression does not evaluate to what the same python expression evaluates to',
                                  case=c, observed=d, required=g))
+        for txt, d3, g3 in o.get('also', []):
+            if d3 != g3:
+                failures.append(dict(kind='oracle', sig='expr-meaning-sibling', what=f'an expression compiled next to another one over the same fields ({txt}) does not mean what its own text means',
+                                     case=c, observed=d3, required=g3))
         for k2, (d2, g2) in enumerate(o.get('again', [])):
             if d2 != g2:
                 failures.append(dict(kind='oracle', sig='expr-meaning-again', what=f'evaluated again (evaluation {k2 + 2} of the same compiled expression) it does not mean what the python expression means',
